@@ -13,6 +13,11 @@ EXTRA_SOURCES = [
     '@ GET /p {\n  $ dir = "C:\\\\data\\\\"\n  $ msg = "please return the file; we validate it and let you know"\n  $ sym = "> not a return, $ not a let, ? not a validate"\n  > {dir: dir, msg: msg, sym: sym}\n}\n',
     "@ GET /q {\n  $ a = 'ends with a backslash \\\\'\n  $ b = 'let return validate route'\n  $ c = \"quote \\\" then \\\\\"\n  $ d = \"let return validate\"\n  > [a, b, c, d]\n}\n",
     '@ GET /r {\n  $ a = "\\\\"\n  if a == "\\\\" {\n    > "return"\n  }\n  > "let"\n}\n',
+    # sigils written without the following space, before each kind of character that can start what follows
+    '@ GET /n {\n  $_tmp = 1\n  $b=2\n  $c9 = [1]\n  if b == 2 {\n    >_tmp\n  }\n  >0\n}\n',
+    '@ GET /m {\n  $x = 5\n  if x > 4 {\n    >(x)\n  }\n  if x > 3 {\n    >"s"\n  }\n  if x > 2 {\n    >[1, 2]\n  }\n  if x > 1 {\n    >-1\n  }\n  if x > 0 {\n    >!true\n  }\n  >{a: 1}\n}\n',
+    ':T9 {\n  a: int!\n}\n@GET /z/:id {\n  $_ = 1\n  >_\n}\n',
+    '@ GET /k {\n  $__a1 = 7\n  $r = __a1 + 1\n  >9.5\n}\n',
 ]
 
 
